@@ -41,27 +41,29 @@ Fixpoint geom (fuel : nat) (s : sbinfo) (ipg ibpg blocks : N) : rres :=
 Definition resize_geom := geom 3.
 
 (* ---- crash protocol ---- *)
-Inductive ev := WSb (err : bool) | WOther | Sync.
+(* WOther old: a write that changes bytes outside the primary superblock; old = it lies inside the
+   extent of the filesystem as it was before the operation (a write beyond it cannot damage the old state) *)
+Inductive ev := WSb (err : bool) | WOther (old : bool) | Sync.
 
-Record pst := mkPst { durable_flag : bool; pending_flags : list bool; k_durable : nat; k_written : nat }.
-Definition pinit := mkPst false [] 0 0.
+Record pst := mkPst { durable_flag : bool; pending_flags : list bool; k_durable : nat; k_written : nat; k_old : nat }.
+Definition pinit := mkPst false [] 0 0 0.
 Definition pstep (st : pst) (e : ev) : pst :=
   match e with
-  | WSb v => mkPst (durable_flag st) (v :: pending_flags st) (k_durable st) (k_written st)
-  | WOther => mkPst (durable_flag st) (pending_flags st) (k_durable st) (S (k_written st))
-  | Sync => mkPst (hd (durable_flag st) (pending_flags st)) [] (k_written st) (k_written st)
+  | WSb v => mkPst (durable_flag st) (v :: pending_flags st) (k_durable st) (k_written st) (k_old st)
+  | WOther o => mkPst (durable_flag st) (pending_flags st) (k_durable st) (S (k_written st)) (if o then S (k_old st) else k_old st)
+  | Sync => mkPst (hd (durable_flag st) (pending_flags st)) [] (k_written st) (k_written st) (k_old st)
   end.
 Definition pscan (t : list ev) : pst := fold_left pstep t pinit.
 
-Definition is_other (e : ev) : bool := match e with WOther => true | _ => false end.
+Definition is_other (e : ev) : bool := match e with WOther _ => true | _ => false end.
 Definition total_others (t : list ev) : nat := length (filter is_other t).
 
 (* a crash leaves the primary superblock with the durable flag or any flag written since the
    last sync, and any set of the other writes between "those durable" and "those issued";
-   the state is acceptable when the flag is set, or nothing of the operation can be on disk,
-   or all of it is *)
+   the state is acceptable when the flag is set, or nothing of the operation can have touched
+   the old filesystem, or all of it is durable *)
 Definition st_ok (total : nat) (st : pst) : bool :=
-  forallb (fun v => v || (k_written st =? 0)%nat || (k_durable st =? total)%nat) (durable_flag st :: pending_flags st).
+  forallb (fun v => v || (k_old st =? 0)%nat || (k_durable st =? total)%nat) (durable_flag st :: pending_flags st).
 
 Definition crash_safe (t : list ev) : Prop :=
   forall n, st_ok (total_others t) (pscan (firstn n t)) = true.
@@ -71,11 +73,11 @@ Fixpoint check_from (total : nat) (st : pst) (t : list ev) : bool :=
   st_ok total st && match t with [] => true | e :: t' => check_from total (pstep st e) t' end.
 Definition protocol_check (t : list ev) : bool := check_from (total_others t) pinit t.
 
-(* the shape resize_fs produces: flag written and flushed, body, flush, flag cleared *)
+(* the shape resize_fs produces *)
 Definition no_clear (e : ev) : bool := match e with WSb false => false | _ => true end.
-Definition is_sb (e : ev) : bool := match e with WSb _ => true | _ => false end.
+Definition harmless (e : ev) : bool := match e with WSb _ => true | WOther false => true | _ => false end.
 Definition not_other (e : ev) : bool := negb (is_other e).
-(* pre: superblock field updates before the flag is set (write time etc.);
-   post: the field-by-field write of the final superblock, flag cleared somewhere in it *)
+(* pre: superblock field updates and writes beyond the old end (growing the image file) before the
+   flag is set; post: the field-by-field write of the final superblock, flag cleared somewhere in it *)
 Definition resize_trace (pre body post : list ev) : list ev :=
   pre ++ [WSb true; Sync] ++ body ++ [Sync] ++ post.
